@@ -29,16 +29,19 @@ Rn(ren, n) == IF \E i \in 1..Len(ren) : ren[i][1] = n
 Has(fp, n) == \E j \in 1..Len(fp) : fp[j][1] = n
 Val(fp, n) == fp[CHOOSE j \in 1..Len(fp) : fp[j][1] = n][2]
 \* fp' = Rename(fp, ren) on every observable both models define; the required observables must still be there
-FpKept(e) == Combine({EqLL(e.before[i][2], Val(e.after, Rn(e.ren, e.before[i][1])))
-                      : i \in {k \in 1..Len(e.before) : Has(e.after, Rn(e.ren, e.before[k][1]))}})
+FpKeptOn(e, A) == Combine({EqLL(e.before[i][2], Val(A, Rn(e.ren, e.before[i][1])))
+                           : i \in {k \in 1..Len(e.before) : Has(A, Rn(e.ren, e.before[k][1]))}})
+FpKept(e) == FpKeptOn(e, e.after)
+\* aftercode = fingerprint of the model read back from the code generated for the result (empty: not comparable)
+CodeKept(e, mm) == IF CodeBacked(mm) /\ Len(e.aftercode) > 0 THEN FpKeptOn(e, e.aftercode) ELSE "none"
 ReqKept(e) == IF \A r \in SeqSet(e.req) : Has(e.after, Rn(e.ren, r)) THEN "ok" ELSE "bad"
 Pairs(ps) == IF Len(ps) = 0 THEN "none" ELSE Combine({EqLL(x[1], x[2]) : x \in SeqSet(ps)})
-J(fp, req, obs) == [fp |-> fp, req |-> req, obs |-> obs]
+J(fp, req, obs) == [fp |-> fp, req |-> req, obs |-> obs, code |-> "none"]
 
 Judge(e) ==
     LET c == Class[e.act] IN
     CASE c = "Preserving" /\ e.act = "P:SIMP" -> J("none", "none", Pairs(e.pairs))
-      [] c = "Preserving" -> J(FpKept(e), ReqKept(e), Pairs(e.pairs))
+      [] c = "Preserving" -> [J(FpKept(e), ReqKept(e), Pairs(e.pairs)) EXCEPT !.code = CodeKept(e, Apply(e.act))]
       [] c = "Observe"    -> J("none", "none", Pairs(e.pairs))
       [] OTHER            -> J("none", "none", "none")     \* Structural / Extension / Data: a new function, nothing to keep
 
